@@ -86,6 +86,48 @@ def lazy_checks():
             q = signac.Project(p.path).open_job(id=j.id)
             if json.loads(json.dumps(q.statepoint())) != sp or json.loads(json.dumps(dict(q.cached_statepoint))) != sp:
                 out.append(("reopen:" + json.dumps(sp), f"job {sp} reopened by id in a fresh session reports {q.statepoint()}"))
+    out += aliasing_checks()
+    return out
+
+
+def aliasing_checks():
+    """open_job(sp) is unaffected by later mutation of the caller's mapping, whatever container spelling it came in"""
+    import copy
+    import hashlib
+    import signac
+    out = []
+
+    def rid(v):
+        return hashlib.md5(json.dumps(v, sort_keys=True).encode()).hexdigest()
+    with project_scratch() as p:
+        parent = p.open_job({"grid": {"n": 1, "l": [1, 2]}, "tag": "parent"}).init()
+        cases = []
+        d1 = {"a": {"n": 1}}
+        cases.append(("nested dict", d1, lambda: d1["a"].__setitem__("n", 2)))
+        d2 = {"a": [1, 2]}
+        cases.append(("nested list", d2, lambda: d2["a"].append(3)))
+        d3 = {"kind": "child", "grid": parent.sp.grid}
+        cases.append(("nested synced collection", d3, lambda: parent.sp.grid.__setitem__("n", 5)))
+        d4 = {"kind": "child2", "t": ([1, 2], "x")}
+        cases.append(("tuple holding a list", d4, lambda: d4["t"][0].append(9)))
+        d5 = {"kind": "child3", "l": parent.sp.grid.l}
+        cases.append(("synced list", d5, lambda: parent.sp.grid.l.append(7)))
+        for name, sp, mutate in cases:
+            try:
+                from synced_collections.utils import SyncedCollectionJSONEncoder
+                want = json.loads(SyncedCollectionJSONEncoder().encode(sp))
+                j = p.open_job(sp)
+                jid = j.id
+                mutate()
+                got = json.loads(json.dumps(j.statepoint()))
+                if got != want or rid(got) != jid:
+                    out.append(("alias:" + name, f"open_job({name}): after mutating the caller's value the handle reports {got} (id {jid}, hash of that {rid(got)}), expected the value at open time {want}"))
+                    continue
+                j.init()
+                if json.loads(open(j.fn("signac_statepoint.json")).read()) != want:
+                    out.append(("alias:" + name, f"open_job({name}): state point file differs from the value at open time"))
+            except Exception as e:
+                out.append(("alias:" + name, f"open_job({name}) / later use raised {type(e).__name__}: {e}"))
     return out
 
 
